@@ -689,16 +689,21 @@ def popen_small_reads(ctx, pexpect):
 def interact_logs(ctx, pexpect):
     """interact(): both directions are logged, with the string type of the API"""
     from .interact_rig import Rig, child_received
-    for enc in (None, 'utf-8'):
+    for enc, variant in ((None, 0), ('utf-8', 0), (None, 1), ('utf-8', 1)):
         a, rd, sd = (io.StringIO(), io.StringIO(), io.StringIO()) if enc else (io.BytesIO(), io.BytesIO(), io.BytesIO())
         rig = Rig(pexpect, encoding=enc, logfile=a, logfile_read=rd, logfile_send=sd)
         rig.start()
         typed = 'hé'.encode('utf-8') + b'xy'
         rig.type(typed[:2])
         time.sleep(0.3)
-        rig.type(typed[2:])
-        time.sleep(0.5)
-        rig.type(b'\x1d')
+        if variant == 0:
+            rig.type(typed[2:])
+            time.sleep(0.5)
+            rig.type(b'\x1d')
+        else:
+            # the escape character arrives in the same read as other keystrokes (fast typing, a paste): what precedes it is
+            # forwarded AND logged, what follows it is neither
+            rig.type(typed[2:] + b'\x1d' + b'zz')
         ok = rig.wait_return(5)
         screen, mode = rig.finish()
         if rig.error is not None or not ok:
@@ -706,7 +711,7 @@ def interact_logs(ctx, pexpect):
             return
         want_send = typed.decode('utf-8') if enc else typed
         if sd.getvalue() != want_send:
-            ctx.hit('C11/interact', 'interact(): logfile_send got %r, the user typed %r' % (sd.getvalue(), want_send), {'encoding': enc})
+            ctx.hit('C11/interact', 'interact(): logfile_send got %r, the user typed %r%s' % (sd.getvalue(), want_send, ' and then, in the same read, the escape character' if variant else ''), {'encoding': enc, 'variant': variant})
             return
         got_read = rd.getvalue()
         shown = screen.decode('utf-8', 'replace') if enc else screen
